@@ -384,7 +384,10 @@ func genInterruptedDeleteCase(r *rand.Rand, cfg Cfg) Case {
 	}
 	ops = append(ops, "root 0 0", "load 0 0", "load 0 2", fmt.Sprintf("faultall load del 0 %d 1", top),
 		"stat 0", "iter 0", "diff 2 0", "diff 0 2", fmt.Sprintf("get 0 %d", keys[1]), fmt.Sprintf("cwalk 0 %d ffb", keys[1]),
-		fmt.Sprintf("seek 0 %d", keys[2]), "clone 0 3", "iter 3", "diff 2 3", "root 0 1", "load 1 4", "iter 4", "stat 4", "diff 2 4")
+		fmt.Sprintf("seek 0 %d", keys[2]), "clone 0 3", "iter 3", "diff 2 3", "roots 0 1", "pshape 1", "load 1 4", "iter 4", "stat 4", "diff 2 4",
+		// the version just persisted has the shape an earlier release leaves (taller than warranted):
+		// loaded and persisted again unmodified it writes nothing and returns the same root
+		"roots 4 5", "stat 4", "load 5 6", "iter 6")
 	if r.Intn(2) == 0 {
 		ops = append(ops, opIns(0, vk(601, 0), 2), "iter 0", opDel(0, keys[1], 1), "iter 0", "stat 0", "root 0 2", "load 2 4", "iter 4")
 	}
